@@ -294,6 +294,75 @@ func runC19(r *core.Run) {
 			return out
 		})
 
+	// A tree is a mutable structure: it is traversed, edited (a subtree grafted on, a branch pruned), and
+	// traversed again - by new iterators obtained after the edit. Anything a traversal remembers about a
+	// root beyond its own run (a depth hint, a cached order) is stale by then.
+	type c19Edit struct {
+		Code []int  `json:"preorder_child_counts"`
+		Edit string `json:"edit"`
+		Node int    `json:"at_node"`
+	}
+	NE := core.Pick(r, 6, 8)
+	edits := []string{"append-leaf", "prepend-leaf", "graft-chain-of-4", "graft-bush", "drop-last-child", "drop-all-children", "replace-children-by-one-leaf"}
+	r.Bound("traversal-after-the-tree-changed", fmt.Sprintf("every ordered tree with 1..%d nodes x every node x the edits %v; both traversals run to completion (and once more, stopped after one item) before the edit", NE, edits))
+	core.Clause(r, "traversal-after-the-tree-changed", core.Opts{Rule: "the tree is traversed in both orders, edited at one node, and traversed again by iterators obtained after the edit: PreOrder and PostOrder of the edited tree vs the recursive reference by node identity, whatever was traversed from the same root before; non-trivial = all"},
+		func(emit func(c19Edit) bool) {
+			enum.TreesUpTo(NE, func(c []int) bool {
+				for i := range c {
+					for _, e := range edits {
+						if !emit(c19Edit{append([]int(nil), c...), e, i}) {
+							return false
+						}
+					}
+				}
+				return true
+			})
+		},
+		func(c c19Edit) core.Outcome {
+			root, nodes := buildTree(c.Code)
+			out := checkTraversal(root, nodes, fmt.Sprint("tree ", c.Code, " before the edit"))
+			if out.Fail != "" {
+				return out
+			}
+			for range root.PreOrder() {
+				break
+			}
+			for range root.PostOrder() {
+				break
+			}
+			n := nodes[c.Node]
+			leaf := func(name string) *newick.Node { return &newick.Node{Name: name, Distance: 100} }
+			switch c.Edit {
+			case "append-leaf":
+				n.Children = append(n.Children, leaf("new"))
+			case "prepend-leaf":
+				n.Children = append([]*newick.Node{leaf("new")}, n.Children...)
+			case "graft-chain-of-4":
+				n.Children = append(n.Children, &newick.Node{Name: "g1", Children: []*newick.Node{{Name: "g2", Children: []*newick.Node{{Name: "g3", Children: []*newick.Node{leaf("g4")}}}}}})
+			case "graft-bush":
+				n.Children = append(n.Children, &newick.Node{Name: "h", Children: []*newick.Node{leaf("h1"), {Name: "h2", Children: []*newick.Node{leaf("h21"), leaf("h22")}}, leaf("h3")}})
+			case "drop-last-child":
+				if len(n.Children) == 0 {
+					return core.Outcome{Skip: true}
+				}
+				n.Children = n.Children[:len(n.Children)-1]
+			case "drop-all-children":
+				if len(n.Children) == 0 {
+					return core.Outcome{Skip: true}
+				}
+				n.Children = nil
+			case "replace-children-by-one-leaf":
+				n.Children = []*newick.Node{leaf("only")}
+			}
+			var after []*newick.Node
+			refPre(root, &after)
+			o2 := checkTraversal(root, after, fmt.Sprint("tree ", c.Code, " after it was traversed and then edited (", c.Edit, " at node ", c.Node, ")"))
+			if o2.Fail != "" {
+				return o2
+			}
+			return core.Outcome{Class: c.Edit, Nontrivial: true, Evals: out.Evals + o2.Evals + 2}
+		})
+
 	core.Clause(r, "no-recursion", core.Opts{Serial: true, Rule: "a chain of 10^6 nodes traversed in a subprocess whose goroutine stack is capped at 16 MiB (debug.SetMaxStack): any recursion that is as deep as the tree overflows, an explicit stack does not; order checked against the chain itself; non-trivial = all"},
 		func(emit func(c19Big) bool) { emit(c19Big{"chain-under-16MiB-stack-cap", 1000000}) },
 		func(c c19Big) core.Outcome {
